@@ -413,8 +413,15 @@ class Sim:
                     return Bytes(op["bytes"])
                 if op.get("indirect") and ty in ("&&str", "&&[u8]"):
                     return Bytes(op["bytes"])     # derefs of a Bytes value are identities
-                # promoted constant of a local fieldless enum: decode the discriminant
+                # promoted constant range over a primitive integer type: `(b'0'..=b'7')`
                 inner = ty[1:] if ty.startswith("&") else ty
+                for pre, name in (("std::ops::RangeInclusive<", "range-incl"), ("std::ops::Range<", "range")):
+                    if inner.startswith(pre) and inner[len(pre):-1] in INT_BITS and "struct" in op:
+                        # fields decoded by the driver through the type's layout
+                        fv = {x["n"]: x["v"] for x in op["struct"]}
+                        if "start" in fv and "end" in fv:
+                            return Adt(name, 0, [int(fv["start"]), int(fv["end"])])
+                # promoted constant of a local fieldless enum: decode the discriminant
                 a = self.adts.get(inner)
                 if a and a["kind"] == "enum" and all(not v["fields"] for v in a["variants"]):
                     d = int.from_bytes(bytes(op["bytes"]), "little")
@@ -974,6 +981,34 @@ class Sim:
         def has(*ns):
             return any(n in names for n in ns)
 
+        rs = c.get("resolved") or ""
+        # iteration over a known byte slice / array: `for x in bytes`, `for &x in &[a, b, c]`
+        if has("std::iter::IntoIterator::into_iter") and d and isinstance(d[0], Bytes) and \
+                ("slice::iter::<impl std::iter::IntoIterator for &'a [T]>" in rs
+                 or "array::<impl std::iter::IntoIterator for &'a [T; N]>" in rs):
+            return ("value", Adt("sim::SliceIter", 0, [d[0], 0]))
+        if p.endswith("<impl [T]>::iter") and d and isinstance(d[0], Bytes):
+            return ("value", Adt("sim::SliceIter", 0, [d[0], 0]))
+        if has("std::iter::Iterator::next") and d and isinstance(d[0], Adt) and d[0].adt == "sim::SliceIter":
+            it = d[0]
+            seq, i = it.fields
+            if i < len(seq.b):
+                it.fields[1] = i + 1
+                return ("value", Adt("std::option::Option", 1, [Ref([seq.b[i]], 0, ())]))
+            return ("value", Adt("std::option::Option", 0, []))
+        # operators on `&u8` / `u8` operands (`octet >> 6`, `octet & 7`)
+        for tr, fnop in (("std::ops::Shr::shr", lambda a, b: a >> b), ("std::ops::Shl::shl", lambda a, b: a << b),
+                         ("std::ops::BitAnd::bitand", lambda a, b: a & b), ("std::ops::BitOr::bitor", lambda a, b: a | b)):
+            if has(tr) and len(d) == 2 and isinstance(d[0], int) and isinstance(d[1], int) and substs:
+                ty = substs[0].lstrip("&")
+                return ("value", wrap(fnop(d[0], d[1]), ty) if ty in INT_BITS else UNK)
+        # `&bytes[a..=b]` / `&bytes[a..b]` on a known byte slice
+        if has("std::ops::Index::index") and len(d) == 2 and isinstance(d[0], Bytes) and isinstance(d[1], Adt) \
+                and d[1].adt in ("range-incl", "range") and all(isinstance(x, int) for x in d[1].fields[:2]):
+            lo, hi = d[1].fields[0], d[1].fields[1] + (1 if d[1].adt == "range-incl" else 0)
+            if 0 <= lo <= hi <= len(d[0].b):
+                return ("value", Bytes(list(d[0].b[lo:hi])))
+            return ("panic", "slice index out of range")
         if has("std::iter::IntoIterator::into_iter") and d and (c.get("resolved") or "").startswith("<I as std::iter::IntoIterator>"):
             # the blanket `impl<I: Iterator> IntoIterator for I`: the iterator itself
             return ("value", args[0])
